@@ -11,6 +11,7 @@ PHYLIP and FASTA readers completely (rows, labels, symbols, error class), the Ne
 outcome (C02's Model/Newick.v) and the outcome class of the NEXUS control skeleton.
 """
 import io
+import itertools
 import json
 import os
 import re
@@ -155,7 +156,23 @@ def _run_once(reader, text, opts, seconds):
         name = max(set(names), key=names.count) if names else "?"
         return {"cls": "RecursionErr", "frame": name}
     except MemoryError:
-        return {"cls": "OtherErr", "frame": "MemoryError", "exc": "MemoryError"}
+        # unbounded allocation under the worker's address-space limit: a loop that does not end
+        name = "?"
+        try:
+            tb = sys.exc_info()[2]
+            names = []
+            while tb is not None:          # (no source lines: nothing large may be allocated here)
+                co = tb.tb_frame.f_code
+                if "/dendropy/" in co.co_filename.replace("\\", "/"):
+                    names.append(co.co_name)
+                tb = tb.tb_next
+            for nm in reversed(names):
+                if nm not in PRIMITIVE_FRAMES:
+                    name = nm
+                    break
+        except MemoryError:
+            pass
+        return {"cls": "Hang", "frame": name, "exc": "MemoryError", "how": "MemoryError under the address-space limit"}
     except BaseException as e:     # noqa - the outcome class of anything else the library raises
         if isinstance(e, (KeyboardInterrupt, SystemExit)):
             raise
@@ -176,16 +193,10 @@ def _run_once(reader, text, opts, seconds):
 _confirmed_hangs = {}
 
 
-def observe(case):
-    """-> observation of the real reader on case['text'] (or on every prefix listed in case['cuts'])"""
-    if "cuts" in case:
-        return [observe_text(case["reader"], case["text"][:k], case.get("opts", {})) for k in case["cuts"]]
-    return observe_text(case["reader"], case["text"], case.get("opts", {}))
-
-
-def observe_text(reader, text, opts):
+def _observe_inproc(reader, text, opts):
+    """(runs inside a worker process) fast alarm, a timeout is confirmed under the slow alarm"""
     ob = _run_once(reader, text, opts, FAST_ALARM)
-    if ob["cls"] == "Hang":
+    if ob["cls"] == "Hang" and ob.get("exc") != "MemoryError":
         site = (reader, ob["frame"])
         if _confirmed_hangs.get(site, 0) < CONFIRMATIONS:
             ob2 = _run_once(reader, text, opts, SLOW_ALARM)
@@ -193,10 +204,92 @@ def observe_text(reader, text, opts):
                 return ob2
             _confirmed_hangs[site] = _confirmed_hangs.get(site, 0) + 1
             ob = ob2
-        ob.pop("line", None)
-    else:
-        ob.pop("line", None)
+    ob.pop("line", None)
     return ob
+
+
+def _job(job):
+    """worker side: (reader | None, text, opts, want_floats) -> ((observation | None, floats | None), retire)"""
+    reader, text, opts, want = job
+    ob = _observe_inproc(reader, text, opts) if reader is not None else None
+    fl = None
+    if want:
+        fl = [] if (ob is not None and ob["cls"] == "Hang") else _float_tokens_inproc(text)
+    retire = ob is not None and ob.get("exc") == "MemoryError"
+    return (ob, fl), retire
+
+
+def _job_death(job, how):
+    """parent side: the worker running `job` died or had to be killed"""
+    reader, text, opts, want = job
+    ob = None if reader is None else {"cls": "Hang", "frame": "worker-killed", "how": how}
+    return (ob, [] if want else None)
+
+
+_POOL = None
+_MEMO = {}       # (reader, text, opts) -> observation
+_FLOATS = {}     # text -> float tokens
+WORKERS = 4
+HARD_S = 25.0    # > FAST_ALARM + SLOW_ALARM + the float-token alarm, with room for a loaded machine
+
+
+def pool():
+    global _POOL
+    if _POOL is None:
+        from dv import c20_pool
+        _POOL = c20_pool.Pool(_job, _job_death, n=WORKERS, hard_s=HARD_S)
+    return _POOL
+
+
+def _key(reader, text, opts):
+    return (reader, text, json.dumps(opts, sort_keys=True))
+
+
+def run_jobs(jobs):
+    res = pool().map(jobs)
+    for (reader, text, opts, want), (ob, fl) in zip(jobs, res):
+        if reader is not None:
+            _MEMO[_key(reader, text, opts)] = ob
+        if fl is not None:
+            _FLOATS[text] = fl
+
+
+def _wants_floats(case):
+    return case["reader"] in ("newick", "nexus", "newick_yield") and modelled(case)
+
+
+def prefetch(cases):
+    """run the reads of `cases` in the worker pool; `observe` / `float_tokens` then answer from the memo"""
+    jobs, seen = [], set()
+    for case in cases:
+        reader, opts = case["reader"], case.get("opts", {})
+        want = _wants_floats(case)
+        texts = [case["text"][:k] for k in case["cuts"]] if "cuts" in case else [case["text"]]
+        if want and "cuts" in case:
+            texts.append(case["text"])
+        for t in texts:
+            k = _key(reader, t, opts)
+            if k in seen or (k in _MEMO and (not want or t in _FLOATS)):
+                continue
+            seen.add(k)
+            jobs.append((reader, t, opts, want))
+    if jobs:
+        run_jobs(jobs)
+
+
+def observe(case):
+    """-> observation of the real reader on case['text'] (or on every prefix listed in case['cuts'])"""
+    if "cuts" in case:
+        prefetch([case])
+        return [observe_text(case["reader"], case["text"][:k], case.get("opts", {})) for k in case["cuts"]]
+    return observe_text(case["reader"], case["text"], case.get("opts", {}))
+
+
+def observe_text(reader, text, opts):
+    k = _key(reader, text, opts)
+    if k not in _MEMO:
+        run_jobs([(reader, text, opts, False)])
+    return dict(_MEMO[k])
 
 
 # ---------------------------------------------------------------------------------------------
@@ -361,25 +454,35 @@ def c_obs(reader, ob):
     return "(XErr %s)" % (cls if cls in ERR_NAMES else "OtherErr")
 
 
-def float_tokens(text):
-    """the tokens of `text` (as NexusTokenizer sees them) that Python's float() accepts"""
+def _float_tokens_inproc(text):
+    """(worker side; the tokenizer is library code and may not terminate: alarm)"""
     from dendropy.dataio import nexusprocessing
     out = []
     try:
-        tk = nexusprocessing.NexusTokenizer(io.StringIO(text))
-        while True:
-            t = tk.next_token()
-            if t is None:
-                break
-            try:
-                float(t)
-                if t not in out:
-                    out.append(t)
-            except ValueError:
-                pass
+        with core.alarm(2.0):
+            tk = nexusprocessing.NexusTokenizer(io.StringIO(text))
+            while True:
+                t = tk.next_token()
+                if t is None:
+                    break
+                try:
+                    float(t)
+                    if t not in out:
+                        out.append(t)
+                except ValueError:
+                    pass
+    except MemoryError:
+        raise
     except Exception:
         pass
     return out
+
+
+def float_tokens(text):
+    """the tokens of `text` (as NexusTokenizer sees them) that Python's float() accepts"""
+    if text not in _FLOATS:
+        run_jobs([(None, text, {}, True)])
+    return list(_FLOATS[text])
 
 
 def digit_tokens(text):
@@ -467,14 +570,18 @@ def search(ctx, budget_s):
     found = 0
     import random
     rng = random.Random(ctx.seed + 4242)
-    for case in G.search_stream(rng):
-        if time.time() - t0 > budget_s:
+    stream = G.search_stream(rng)
+    while time.time() - t0 <= budget_s:
+        chunk = list(itertools.islice(stream, 40))
+        if not chunk:
             break
-        obs = observe(case)
-        n += len(case["cuts"]) if "cuts" in case else 1
-        for what, key, sub, ob in all_violations(case, obs):
-            if ctx.violation(what, {"case": sub, "observed": ob}, key=key):
-                found += 1
+        prefetch(chunk)
+        for case in chunk:
+            obs = observe(case)
+            n += len(case["cuts"]) if "cuts" in case else 1
+            for what, key, sub, ob in all_violations(case, obs):
+                if ctx.violation(what, {"case": sub, "observed": ob}, key=key):
+                    found += 1
     ctx.notes.append("search: %d further inputs through the oracle, %d unlisted violation(s)" % (n, found))
 
 
@@ -490,9 +597,9 @@ def count_case(ctx, case, obs):
 def run(tier, seed, replay=None):
     ctx = core.Ctx("C20", tier, seed)
     ctx.assumptions = [
-        "models coq/Model/C20Model.v (PHYLIP, FASTA) and C20Nexus.v (NEXUS control skeleton) are hand transcriptions tied by this correspondence run; Gen/ReaderLoops.v is regenerated from the source on every run",
+        "models coq/Model/C20Model.v (PHYLIP, FASTA) and C20Nexus2.v (NEXUS skeleton) are hand transcriptions tied by this correspondence run; Gen/ReaderLoops.v is regenerated from the source on every run",
         "Python runtime functions (str.isspace, Unicode digits, str.lower, float(), state-alphabet symbol table) are parameters of the models; the run instantiates them with tables that are exact on the generated characters",
-        "wall-clock alarm (1 s, confirmed at 5 s) stands for non-termination",
+        "wall-clock alarm (0.35 s, confirmed at 5 s), MemoryError under a 2 GB address-space limit, or a worker process that had to be killed after 25 s stand for non-termination",
         "the tokenizer / Newick models are C02's (Model/Tokenizer.v, Model/Newick.v)",
     ]
     global VARIANTS
@@ -515,6 +622,7 @@ def run(tier, seed, replay=None):
     cases = G.cases(ctx.rng, tier)
     oracle_only = [c for c in cases if not modelled(c)]
     model_cases = [c for c in cases if modelled(c)]
+    prefetch(cases)       # all reads, in the worker pool
     # oracle-only cases (readers / options / characters outside the models)
     for case in oracle_only:
         obs = observe(case)
